@@ -275,13 +275,30 @@ def all_(a, dim=None, **kw):
 
 
 def _opaque_scalar_bool(a, label):
-    """0-d bool tensor whose value is a *functional* of the operand (same operand value -> same
-    result): an uninterpreted predicate over an abstraction token of the storage version."""
-    tok = z3.Bool(sym.ctx().fresh_name(f"{label}@{a.storage.id}v{a.storage.version}"))
+    """0-d bool tensor r = any(a) / all(a).  r is a fresh boolean tied to the entries of ``a``:
+      any:  r -> (w in bounds and a[w] != 0) for a skolem witness w;   not r -> forall idx: a[idx] == 0
+      all:  not r -> (w in bounds and a[w] == 0);                       r -> forall idx: a[idx] != 0
+    the universal halves are registered in ctx.universals and instantiated by contracts at their
+    skolem indices (sym.instantiate_universals)."""
+    c = sym.ctx()
     e = a.elem_fn()
-    if e is not None and a.dim() == 0:
-        v = e(())
-        tok = v if z3.is_bool(v) else v != 0
+    if e is None:
+        tok = z3.Bool(c.fresh_name(f"{label}@{a.storage.id}v{a.storage.version}"))
+        return SymTensor.from_elem((), T.bool_, lambda idx: tok)
+    nz = (lambda v: v if z3.is_bool(v) else v != 0)
+    if a.dim() == 0:
+        tok = nz(e(()))
+        return SymTensor.from_elem((), T.bool_, lambda idx: tok)
+    tok = z3.Bool(c.fresh_name(f"{label}@{a.storage.id}v{a.storage.version}"))
+    w = tuple(z3.Int(c.fresh_name(f"w!{label}{j}")) for j in range(a.dim()))
+    inb = a.in_bounds(w)
+    shape = a.shape
+    if label == "any":
+        c.add_axiom(z3.Implies(tok, z3.And(inb, nz(e(w)))))
+        c.universals.append((len(shape), lambda idx: z3.Implies(z3.And(z3.Not(tok), z3.And(*[z3.And(O.ix(i) >= 0, O.ix(i) < O.ix(s_)) for i, s_ in zip(idx, shape)])), z3.Not(nz(e(tuple(idx)))))))
+    else:
+        c.add_axiom(z3.Implies(z3.Not(tok), z3.And(inb, z3.Not(nz(e(w))))))
+        c.universals.append((len(shape), lambda idx: z3.Implies(z3.And(tok, z3.And(*[z3.And(O.ix(i) >= 0, O.ix(i) < O.ix(s_)) for i, s_ in zip(idx, shape)])), nz(e(tuple(idx))))))
     return SymTensor.from_elem((), T.bool_, lambda idx: tok)
 
 
@@ -615,8 +632,10 @@ def build():
     torch.Size = Size
     torch.dtype = T.DType
     torch.device = T.Device
-    for n in ("float16", "half", "float32", "float", "float64", "double", "int32", "int", "int64", "long", "uint8"):
+    for n in ("float16", "half", "float32", "float64", "double", "int32", "int64", "long", "uint8"):
         setattr(torch, n, getattr(T, n))
+    torch.float = T.float32
+    torch.int = T.int32
     torch.bool = T.bool_
     torch.uint = T.uint8
     torch.LongTensor = type("LongTensor", (SymTensor,), {})
